@@ -498,6 +498,18 @@ static void crash_points(int from, int to, int stride, const char *vars, const c
         g_first_apply_lognum = -1;
         rc = ldb_open(imgdir, &o2, &db2);
       }
+      if (rc == LDB_OK) {
+        /* the file-number counter a recovery ends with must lie above every numbered file in the directory: a number at or
+           above it would be handed out again and the file re-created (truncated) */
+        char **nm = NULL; int cnt = ldb_get_children(imgdir, &nm), q; unsigned long maxnum = 0; char maxname[64] = "-";
+        for (q = 0; q < cnt; q++) {
+          char *e = NULL; unsigned long x = strtoul(nm[q], &e, 10);
+          if (e != nm[q] && (!strcmp(e, ".log") || !strcmp(e, ".ldb") || !strcmp(e, ".sst")) && x >= maxnum) { maxnum = x; snprintf(maxname, sizeof(maxname), "%s", nm[q]); }
+          if (!strncmp(nm[q], "MANIFEST-", 9)) { x = strtoul(nm[q] + 9, NULL, 10); if (x >= maxnum) { maxnum = x; snprintf(maxname, sizeof(maxname), "%s", nm[q]); } }
+        }
+        if (cnt >= 0) ldb_free_children(nm, cnt);
+        printf("recnext %d %d next=%llu max=%lu name=%s\n", n, v, (unsigned long long)db2->versions->next_file_number, maxnum, maxname);
+      }
       printf("crash %d %d rc=%d", n, v, rc);
       if (rc == LDB_OK) {
         printf(" lognum=%lld lastseq=%llu ", g_first_apply_lognum >= 0 ? g_first_apply_lognum : (long long)db2->versions->log_number, (unsigned long long)db2->versions->last_sequence);
